@@ -40,8 +40,8 @@ Qed.
 (* call-by-need: the chain of field assignments of __init__ shares the state it updates *)
 Ltac norm_state :=
   lazy beta iota delta [set_pj_start set_pj_max_attempts set_pj_delay set_pj_stop set_pj_skip_missing set_pj_tzinfo
-    set_pj_mark_delete set_pj_attempts set_pj_timers set_pj_pending blank_pyjobstate
-    pj_mark_delete pj_max_attempts pj_attempts pj_delay pj_skip_missing pj_start pj_stop pj_tzinfo pj_timers pj_pending].
+    set_pj_mark_delete set_pj_attempts set_pj_failed_attempts set_pj_timers set_pj_pending blank_pyjobstate
+    pj_mark_delete pj_max_attempts pj_attempts pj_failed_attempts pj_delay pj_skip_missing pj_start pj_stop pj_tzinfo pj_timers pj_pending].
 
 Theorem tie_basejob_new c tz now :
   forallb (entry_sane (c_type c)) (c_timing c) = true -> Forall (valid_entry (c_type c)) (c_timing c) ->
